@@ -9,8 +9,10 @@ mod node;
 
 mod props;
 mod refvalid;
+mod rig;
 mod runner;
 mod sim;
+mod solo;
 mod tape;
 mod world;
 
